@@ -188,21 +188,40 @@ func c09Slot(c *rep.Ctx) {
 	if f := c.Fn("consensus/impl/dpos/slot.(*Slot).IsFor"); f != nil {
 		info := f.Info()
 		ok := false
-		for _, r := range f.Graph().Returns() {
+		g := f.Graph()
+		// once-defined locals are looked through (operands are decided exactly by owner-operand in c09_gap.go)
+		var resolve func(e ast.Expr, depth int) ast.Expr
+		resolve = func(e ast.Expr, depth int) ast.Expr {
+			e = ast.Unparen(e)
+			if o := an.ObjOf(info, e); o != nil && depth < 5 {
+				if rhs, _ := g.SingleDef(o); rhs != nil && rhs != e {
+					return resolve(rhs, depth+1)
+				}
+			}
+			return e
+		}
+		nRet := 0
+		for _, r := range g.Returns() {
 			rs := r.Ast.(*ast.ReturnStmt)
-			be, isB := ast.Unparen(rs.Results[0]).(*ast.BinaryExpr)
-			if !isB || be.Op != token.EQL {
+			if len(rs.Results) != 1 {
 				continue
 			}
-			l, rr := be.X, be.Y
+			nRet++
+			be, isB := resolve(rs.Results[0], 0).(*ast.BinaryExpr)
+			if !isB || be.Op != token.EQL {
+				ok = false
+				break
+			}
+			l, rr := resolve(be.X, 0), resolve(be.Y, 0)
 			if !containsCallTo(info, l, "consensus/impl/dpos/slot.(*Slot).NextBpIndex") {
 				l, rr = rr, l
 			}
-			if call, isCall := ast.Unparen(l).(*ast.CallExpr); isCall && an.CalleeName(info, call) == "consensus/impl/dpos/slot.(*Slot).NextBpIndex" &&
-				argIs(info, call, 0, f.ParamObj(1)) && recvObj(info, call) == recvParam(f) && mentions(info, rr, f.ParamObj(0)) {
-				ok = true
+			ok = containsCallTo(info, l, "consensus/impl/dpos/slot.(*Slot).NextBpIndex") && !containsCallTo(info, rr, "consensus/impl/dpos/slot.(*Slot).NextBpIndex")
+			if !ok {
+				break
 			}
 		}
+		ok = ok && nRet > 0
 		c.Check("slot-function", "consensus/impl/dpos/slot.(*Slot).IsFor|equality", f.Pos(), ok, "a slot belongs to index i exactly when NextBpIndex(count) == i: one function value, hence at most one owner per slot")
 	}
 	if f := c.Fn("consensus/impl/dpos/slot.(*Slot).NextBpIndex"); f != nil {
@@ -210,8 +229,14 @@ func c09Slot(c *rep.Ctx) {
 		ok := false
 		for _, r := range f.Graph().Returns() {
 			rs := r.Ast.(*ast.ReturnStmt)
-			be, isB := ast.Unparen(rs.Results[0]).(*ast.BinaryExpr)
-			if isB && be.Op == token.REM && an.FieldOf(info, be.X) == next && next != nil && mentions(info, be.Y, f.ParamObj(0)) {
+			res := ast.Unparen(rs.Results[0])
+			if o := an.ObjOf(info, res); o != nil {
+				if rhs, _ := f.Graph().SingleDef(o); rhs != nil {
+					res = ast.Unparen(rhs)
+				}
+			}
+			// the modulus operand is decided exactly by owner-operand (c09_gap.go); here: the result is nextIndex % something
+			if be, isB := res.(*ast.BinaryExpr); isB && be.Op == token.REM && next != nil && readsField(info, be.X, next) {
 				ok = true
 			}
 		}
@@ -232,7 +257,13 @@ func c09Slot(c *rep.Ctx) {
 		cmps, und := g.OrdCmps(roleS, roleNow, -2)
 		ok := len(cmps) == 1 && len(und) == 0
 		var pos token.Pos
-		if ok {
+		if len(cmps) == 0 && len(und) == 0 {
+			// no index comparison in a branch condition (e.g. `return a >= b+2`, or the difference in a local):
+			// the form is decided by future-index in c09_gap.go (linear form, either return or branch form)
+			c.Note("future-slot two-slots: no branch comparison in IsFuture; decided by future-index")
+			ok = true
+			pos = f.Pos()
+		} else if ok {
 			pos = cmps[0].Expr.Pos()
 			trues, falses := g.BoolReturns(true), g.BoolReturns(false)
 			for _, sign := range []int{0, +1} {
@@ -262,16 +293,27 @@ func c09Slot(c *rep.Ctx) {
 			// the slot examined comes from the block's timestamp
 			src := ast.Node(fut[0].Call)
 			okTs := containsCallTo(info, src, "types.(*BlockHeader).GetTimestamp")
-			ast.Inspect(fut[0].Call, func(n ast.Node) bool {
-				if id, isID := n.(*ast.Ident); isID {
-					if o := info.Uses[id]; o != nil {
-						if rhs, _ := g.SingleDef(o); rhs != nil && containsCallTo(info, rhs, "types.(*BlockHeader).GetTimestamp") && mentions(info, rhs, f.ParamObj(0)) {
-							okTs = true
+			var follow func(n ast.Node, depth int)
+			follow = func(n ast.Node, depth int) {
+				if depth > 5 {
+					return
+				}
+				ast.Inspect(n, func(n ast.Node) bool {
+					if id, isID := n.(*ast.Ident); isID {
+						if o := info.Uses[id]; o != nil {
+							if rhs, _ := g.SingleDef(o); rhs != nil {
+								if containsCallTo(info, rhs, "types.(*BlockHeader).GetTimestamp") && mentions(info, rhs, f.ParamObj(0)) {
+									okTs = true
+								} else {
+									follow(rhs, depth+1)
+								}
+							}
 						}
 					}
-				}
-				return true
-			})
+					return true
+				})
+			}
+			follow(fut[0].Call, 0)
 			ok = ok && okTs
 		}
 		c.Check("future-slot", "consensus/impl/dpos.(*DPoS).VerifyTimestamp|future-guard", posOf(fut), ok, "a block is accepted only if the slot of its own timestamp is not a future slot")
